@@ -83,8 +83,10 @@ Definition loop_elems_c (f : Z -> cres (Z * cval)) (count : Z) (pos : Z) : cres 
 Section Element.
   Variable block : bytes.
 
-  Definition decodeABIFixedArrayBytes_c (dec : Z -> Z -> cres (Z * cval)) (c : tcomp) (len : Z)
+  Definition decodeABIFixedArrayBytes_c (dec : Z -> Z -> cres (Z * cval)) (c child : tcomp) (len : Z)
              (headStart headPosition : Z) : cres (Z * cval) :=
+    if (len >? 0) && occupiesHeadBytes child && ((len - 1) * 32 >=? zlen block - headPosition)
+    then (Err ENotEnoughValue, 0%N) else
     if len <? 0 then (Panic, 0%N) else
     charge (1 + Z.to_N len)
       (cdo (rd, children) <- loop_elems_c (dec headStart) len headPosition;
@@ -116,11 +118,12 @@ Section Element.
           cdo headOffset <- lift (decodeABILength block headPosition);
           let headStart := headStart + headOffset in
           let headPosition := headStart in
+          if (len >? 0) && ((len - 1) * 32 >=? zlen block - headStart) then (Err ENotEnoughValue, 0%N) else
           if len <? 0 then (Panic, 0%N) else
           charge (Z.to_N len)
             (cdo (_, x) <- walkDynamicChildArrayABIBytes_rep_c (decodeABIElement_c child) c len headStart headPosition;
              (Ok (32, x), 0%N))
-        else decodeABIFixedArrayBytes_c (decodeABIElement_c child) c len headStart headPosition
+        else decodeABIFixedArrayBytes_c (decodeABIElement_c child) c child len headStart headPosition
     | TCDynArr child _ =>
         cdo headOffset <- lift (decodeABILength block headPosition);
         cdo x <- decodeABIDynamicArrayBytes_c (decodeABIElement_c child) c child (headStart + headOffset);
@@ -181,7 +184,12 @@ Definition alloc {A} (r : cres A) : N := snd r.
 
 (* ---------- the bound: defined by recursion on the type, depends on the data length only ----------
    [n] is the length of the data.  A dynamic array can have at most n/32 + 1 elements (the guard in
-   decodeABIDynamicArrayBytes), a byte string at most n bytes. *)
+   decodeABIDynamicArrayBytes), a byte string at most n bytes; a fixed array is decoded with its
+   declared length k only when the data can hold that many entries, so min(k, n/32 + 1) entries
+   are ever allocated (k itself when the element type occupies no bytes: nothing bounds those). *)
+Definition fixed_count (len : Z) (ch_occupies : bool) (n : N) : N :=
+  if ch_occupies then N.min (Z.to_N len) (n / 32 + 1) else Z.to_N len.
+
 Fixpoint bound (c : tcomp) (n : N) : N :=
   match c with
   | TCElem e _ m _ _ =>
@@ -189,7 +197,8 @@ Fixpoint bound (c : tcomp) (n : N) : N :=
       | DecBytes | DecString => 1 + (if (m =? 0) then n else m)
       | _ => 1
       end
-  | TCFixedArr len ch _ => 1 + 2 * Z.to_N len + Z.to_N len * bound ch n
+  | TCFixedArr len ch _ =>
+      let k := fixed_count len (occupiesHeadBytes ch) n in 1 + 2 * k + k * bound ch n
   | TCDynArr ch _ => 1 + (n / 32 + 1) + (n / 32 + 1) * bound ch n
   | TCTuple l _ => 1 + N.of_nat (length l) + fold_right (fun ch acc => bound ch n + acc) 0 l
   end%N.
